@@ -24,7 +24,8 @@ CONSTANTS
     Calls,       \* set of call identifiers (positive integers)
     Pings,       \* subset of Calls: heartbeat calls (no handler, no body)
     CtxCalls,    \* subset of Calls \ Pings made with CallWithContext
-    FailCalls,   \* subset of Calls \ Pings whose handler returns an error
+    FailCalls,   \* subset of Calls \ Pings that the server answers with an error
+    NoMethodCalls, \* subset of FailCalls naming a method the server does not have: no handler runs, the lookup fails
     CliPipe,     \* BOOLEAN: Conn.SetPipelining (writeSched + readSched)
     CliDirect,   \* BOOLEAN: Conn.SetDirectIO (reader decodes inline)
     SrvPipe,     \* BOOLEAN: Server.SetPipelining
@@ -50,10 +51,12 @@ Deviations == { "SweepKeepsEntries",        \* final sweep completes but does no
                 "UnorderedFinish",          \* completion queue has more than one worker
                 "UnorderedExec",            \* pipelined server runs handlers concurrently
                 "DispatchKeepsEntry",       \* dispatch does not remove the entry it completes
-                "SeqReuse" }                \* sequence number not advanced under the lock
+                "SeqReuse",                 \* sequence number not advanced under the lock
+                "LookupFailInline",
+                "RemoveAtFinish" }          \* the entry of a dispatched response stays in the table until its completion runs        \* an unknown method is answered by the decode worker itself, ahead of the handler queue
 
 ASSUME Dev \subseteq Deviations
-ASSUME Pings \subseteq Calls /\ CtxCalls \subseteq Calls \ Pings /\ FailCalls \subseteq Calls \ Pings
+ASSUME Pings \subseteq Calls /\ CtxCalls \subseteq Calls \ Pings /\ FailCalls \subseteq Calls \ Pings /\ NoMethodCalls \subseteq FailCalls
 
 \* the choices a (possibly deviating) step may make: FALSE = as designed
 DevChoice(d) == IF d \in Dev THEN BOOLEAN ELSE {FALSE}
@@ -333,7 +336,8 @@ Finish(c, dUnordered) ==
        /\ (e.via = "queue" /\ ~dUnordered => \A j \in 1..(i-1) : fin[j].via # "queue")
        /\ Complete(c, IF e.f.err THEN SrvErr(e.f.c) ELSE Ok(e.f.c))
        /\ fin' = RemoveAt(fin, i)
-    /\ UNCHANGED <<cseq, seqof, pending, closing, shutdown, codecClosed, sockClosed, cst, wq, rdq, rd, ctxst>>
+    /\ pending' = IF "RemoveAtFinish" \in Dev THEN pending \ {c} ELSE pending
+    /\ UNCHANGED <<cseq, seqof, closing, shutdown, codecClosed, sockClosed, cst, wq, rdq, rd, ctxst>>
     /\ UNCHANGED <<wvars, svars, bvars, issued, slog, wresp>>
 
 \* ReadMessage returned an error: peer EOF (after everything still on the wire has been
@@ -449,13 +453,13 @@ SrvEOF ==
     /\ UNCHANGED <<cvars, wvars, sdq, sxq, sexec, sdone, bvars, hvars>>
 
 \* ServeRequest on the decode worker: a heartbeat is answered by the worker itself;
-\* a unary request is handed to the handler queue (wg.Add).
-SrvDecode(dPing, dDup) ==
+\* a unary request - whatever its method name - is handed to the handler queue (wg.Add).
+SrvDecode(dPing, dDup, dNoMethodInline) ==
     /\ sdq # <<>>
     /\ ~SrvPingBusy
     /\ LET f == Head(sdq) IN
        /\ sdq' = Tail(sdq)
-       /\ IF f.k = "ping" /\ ~dPing
+       /\ IF (f.k = "ping" /\ ~dPing) \/ (f.c \in NoMethodCalls /\ dNoMethodInline)
             THEN /\ sdone' = sdone \cup {f}
                  /\ sxq' = sxq
             ELSE /\ sxq' = IF dDup THEN sxq \o <<f, f>> ELSE Append(sxq, f)
@@ -471,7 +475,19 @@ SrvDrop ==
     /\ sdq' = Tail(sdq)
     /\ UNCHANGED <<cvars, wvars, sxq, sexec, sdone, seof, bvars, hvars>>
 
+\* handleRequest for a method the server does not have: on the handler queue, in its turn, the lookup fails and the
+\* error response is prepared; no user code runs
+SrvLookupFail(c, dUnordered) ==
+    /\ c \in NoMethodCalls
+    /\ \E j \in 1..Len(sxq) : sxq[j].c = c
+    /\ LET i == FirstIdx(sxq, c) IN
+       /\ (SrvPipe /\ ~dUnordered => i = 1 /\ sexec = {} /\ \A f \in sdone : f.k = "ping")
+       /\ sdone' = sdone \cup {sxq[i]}
+       /\ sxq' = RemoveAt(sxq, i)
+    /\ UNCHANGED <<cvars, wvars, sdq, sexec, seof, bvars, hvars>>
+
 SrvExecBegin(c, dUnordered) ==
+    /\ c \notin NoMethodCalls
     /\ \E j \in 1..Len(sxq) : sxq[j].c = c
     /\ LET i == FirstIdx(sxq, c) IN
        /\ (SrvPipe /\ ~dUnordered => i = 1 /\ sexec = {} /\ \A f \in sdone : f.k = "ping")
@@ -505,15 +521,15 @@ LibraryStep ==     \* steps the library takes by itself (fairness applies to the
     \/ \E c \in Calls : \E d1 \in DevChoice("NoRefuseAfterShutdown") : \E d2 \in DevChoice("SeqReuse") : Register(c, d1, d2)
     \/ \E c \in Calls : \E d \in DevChoice("WriteFailAlwaysCompletes") : WriteFailClosed(c, d)
     \/ ReaderRecv
-    \/ \E d1 \in DevChoice("ErrorInline") : \E d2 \in DevChoice("DispatchKeepsEntry") : ReaderDispatch(d1, d2)
+    \/ \E d1 \in DevChoice("ErrorInline") : \E d2 \in (IF "RemoveAtFinish" \in Dev THEN {TRUE} ELSE DevChoice("DispatchKeepsEntry")) : ReaderDispatch(d1, d2)
     \/ \E c \in Calls : \E d \in DevChoice("UnorderedFinish") : Finish(c, d)
     \/ \E d1 \in DevChoice("SweepBeforeDrain") : \E d2 \in DevChoice("SweepKeepsEntries") :
             \E d3 \in DevChoice("SweepSkips") : ReaderEOF(FALSE, d1, d2, d3)
     \/ Close2a \/ Close2b
     \/ \E c \in Calls : CtxReturnDone(c)
     \/ SrvRecv \/ SrvEOF \/ SrvDrop
-    \/ \E d1 \in DevChoice("PingRunsHandler") : \E d2 \in DevChoice("DupExec") : SrvDecode(d1, d2)
-    \/ \E c \in Calls : \E d \in DevChoice("UnorderedExec") : SrvExecBegin(c, d)
+    \/ \E d1 \in DevChoice("PingRunsHandler") : \E d2 \in DevChoice("DupExec") : \E d3 \in DevChoice("LookupFailInline") : SrvDecode(d1, d2, d3)
+    \/ \E c \in Calls : \E d \in DevChoice("UnorderedExec") : SrvExecBegin(c, d) \/ SrvLookupFail(c, d)
     \/ \E c \in Calls : \E d \in DevChoice("EchoWrongSeq") : SrvRespond(c, d)
 
 EnvStep ==         \* choices of the user, the handlers, the network and the peer
@@ -593,7 +609,8 @@ ExecOnlySent == \A i \in 1..Len(slog) : slog[i] \in Calls /\ cst[slog[i]] = "wro
 PingNoExec == \A c \in Pings : ExecCount(c) = 0
 OneResponsePerRequest == \A c \in Calls : RespCount(c) <= 1
 OkImpliesExecOnce == \A c \in Calls \ Pings : res[c].kind = "ok" => ExecCount(c) = 1
-RespondedImpliesExec == \A c \in Calls \ Pings : RespCount(c) >= 1 => ExecCount(c) = 1
+RespondedImpliesExec == \A c \in Calls \ (Pings \cup NoMethodCalls) : RespCount(c) >= 1 => ExecCount(c) = 1
+NoMethodNoExec == \A c \in NoMethodCalls : ExecCount(c) = 0
 
 \* ---- C05: pipelining keeps order
 IsSubSeqOf(s, t) ==   \* s is obtained from t by deleting elements
